@@ -24,7 +24,12 @@ type Op struct {
 	V  int64    `json:"v,omitempty"`
 	C  string   `json:"c,omitempty"`
 	CK int64    `json:"ck,omitempty"`
+	S  int      `json:"s,omitempty"`   // handle slot, for hold / hupdate / hvalue
+	Via string  `json:"via,omitempty"` // hold: "query" takes the handle the Query visitor is given
 }
+
+// nslots handle slots are kept next to the tree (CTreeHandle.v).
+const nslots = 4
 
 // Obs is the projected result of one call.
 type Obs struct {
@@ -73,7 +78,7 @@ func cond(o Op) func(interface{}) bool {
 
 func cp(p []string) []string { return append([]string{}, p...) }
 
-func apply(t *ctree.Tree, o Op) (res Obs) {
+func apply(t *ctree.Tree, slots *[nslots]*ctree.Leaf, o Op) (res Obs) {
 	defer func() {
 		if r := recover(); r != nil {
 			res = Obs{Kind: "panic", Msg: fmt.Sprint(r)}
@@ -189,6 +194,48 @@ func apply(t *ctree.Tree, o Op) (res Obs) {
 		return Obs{Kind: "names", HasNm: true, Names: ns}
 	case "isbranch":
 		return Obs{Kind: "bool", B: t.Get(o.P).IsBranch()}
+	case "hold":
+		// keep the handle of the leaf stored at the (non-empty) path, if there is one;
+		// the root node is never replaced and a handle on a branch position is KF-C09-1
+		slots[o.S] = nil
+		if len(o.P) == 0 {
+			return Obs{Kind: "bool", B: false}
+		}
+		n := t.Get(o.P)
+		if n == nil || n.IsBranch() || n.Value() == nil {
+			return Obs{Kind: "bool", B: false}
+		}
+		glob := false
+		for _, e := range o.P {
+			if e == "*" {
+				glob = true
+			}
+		}
+		if o.Via == "query" && !glob {
+			// the handle the visitor is given for exactly this leaf
+			if err := t.Query(o.P, func(path []string, l *ctree.Leaf, _ interface{}) error {
+				if len(path) == len(o.P) {
+					slots[o.S] = l
+				}
+				return nil
+			}); err != nil {
+				panic(err)
+			}
+		} else {
+			slots[o.S] = t.GetLeaf(o.P)
+		}
+		return Obs{Kind: "bool", B: slots[o.S] != nil}
+	case "hupdate":
+		if slots[o.S] == nil {
+			return Obs{Kind: "bool", B: false}
+		}
+		slots[o.S].Update(o.V)
+		return Obs{Kind: "bool", B: true}
+	case "hvalue":
+		if slots[o.S] == nil {
+			return Obs{Kind: "kind", NK: "absent"}
+		}
+		return kind(slots[o.S].Value(), false)
 	case "queryerr":
 		// the visitor fails at its first call: Query must hand the error back
 		// (and, C10, must not keep a lock: the operations that follow still run)
@@ -207,6 +254,7 @@ func apply(t *ctree.Tree, o Op) (res Obs) {
 
 func run(ops []Op) []Obs {
 	t := &ctree.Tree{}
+	var slots [nslots]*ctree.Leaf
 	out := make([]Obs, len(ops))
 	for i := range out {
 		out[i] = Obs{Kind: "panic", Msg: "hang: the operation sequence did not return within the watchdog"}
@@ -215,7 +263,7 @@ func run(ops []Op) []Obs {
 	go func() {
 		defer close(done)
 		for i, o := range ops {
-			out2 := apply(t, o)
+			out2 := apply(t, &slots, o)
 			out[i] = out2
 		}
 	}()
@@ -244,6 +292,18 @@ func cndTerm(o Op) string {
 }
 
 func opTerm(n *vh.Names, o Op) string {
+	switch o.K {
+	case "hold":
+		return fmt.Sprintf("HHold %d %s", o.S, n.Path(o.P))
+	case "hupdate":
+		return fmt.Sprintf("HUpdate %d %s", o.S, vh.Z(o.V))
+	case "hvalue":
+		return fmt.Sprintf("HValue %d", o.S)
+	}
+	return "HOp (" + treeOpTerm(n, o) + ")"
+}
+
+func treeOpTerm(n *vh.Names, o Op) string {
 	switch o.K {
 	case "add":
 		return fmt.Sprintf("OAdd %s %s", n.Path(o.P), vh.Z(o.V))
@@ -568,6 +628,87 @@ func randCase(r *vh.Rand, maxOps int) []Op {
 	return ops
 }
 
+// handleCase: leaves are added, their handles kept (through GetLeaf or through the
+// Query visitor), then deletes (exact, by glob, conditional), re-adds at the same and at
+// other paths -- each creating new nodes -- and updates and reads through the kept
+// handles, live and detached, interleaved with lookups and sorted walks.
+func handleCase(r *vh.Rand) []Op {
+	names := []string{"a", "b", "c", "d"}
+	path := func() []string {
+		n := 1 + r.Intn(3)
+		p := make([]string, n)
+		for i := range p {
+			p[i] = names[r.Intn(len(names))]
+		}
+		return p
+	}
+	var ops []Op
+	var stored [][]string
+	val := int64(1)
+	nv := func() int64 { val++; return val }
+	for i, n := 0, 2+r.Intn(4); i < n; i++ {
+		p := path()
+		ops = append(ops, Op{K: "add", P: p, V: nv()})
+		stored = append(stored, p)
+	}
+	some := func() []string {
+		if r.Chance(5, 6) {
+			return cp(stored[r.Intn(len(stored))])
+		}
+		return path()
+	}
+	for i, n := 0, 6+r.Intn(24); i < n; i++ {
+		switch r.Pick(5, 6, 4, 5, 5, 2, 2, 1) {
+		case 0:
+			o := Op{K: "hold", S: r.Intn(nslots), P: some()}
+			if r.Chance(1, 3) {
+				o.Via = "query"
+			}
+			ops = append(ops, o)
+		case 1:
+			ops = append(ops, Op{K: "hupdate", S: r.Intn(nslots), V: nv()})
+		case 2:
+			ops = append(ops, Op{K: "hvalue", S: r.Intn(nslots)})
+		case 3:
+			p := some()
+			switch r.Pick(3, 2, 1) {
+			case 1:
+				if len(p) > 0 {
+					p[r.Intn(len(p))] = "*"
+				}
+			case 2:
+				p = p[:r.Intn(len(p)+1)]
+			}
+			o := Op{K: "delete", P: p}
+			if r.Chance(1, 4) {
+				randCond(r, &o)
+			}
+			if r.Chance(1, 4) {
+				o.K = "walkdeleted"
+				if o.C == "" {
+					o.C = "all"
+				}
+			}
+			ops = append(ops, o)
+		case 4:
+			p := some()
+			ops = append(ops, Op{K: "add", P: p, V: nv()})
+			stored = append(stored, p)
+		case 5:
+			ops = append(ops, Op{K: "getleafvalue", P: some()})
+		case 6:
+			ops = append(ops, Op{K: "walksorted"})
+		case 7:
+			ops = append(ops, Op{K: "isbranch", P: some()})
+		}
+	}
+	for s := 0; s < nslots; s++ {
+		ops = append(ops, Op{K: "hvalue", S: s})
+	}
+	ops = append(ops, Op{K: "walksorted"})
+	return ops
+}
+
 func nontrivial(c Case) bool {
 	added, hit := false, false
 	for i, o := range c.Ops {
@@ -630,6 +771,10 @@ func describe(c Case) []string {
 	out := make([]string, len(c.Ops))
 	for i, o := range c.Ops {
 		b, _ := json.Marshal(c.Obs[i])
+		if o.K == "hold" || o.K == "hupdate" || o.K == "hvalue" {
+			out[i] = fmt.Sprintf("%s[slot %d](%s %d %s) -> %s", o.K, o.S, strings.Join(o.P, "/"), o.V, o.Via, b)
+			continue
+		}
 		out[i] = fmt.Sprintf("%s(%s) -> %s", o.K, strings.Join(o.P, "/"), b)
 	}
 	return out
@@ -639,7 +784,7 @@ func (e *emitter) flush() {
 	if e.cf.Len() == 0 {
 		return
 	}
-	if err := e.cf.Write(e.dir, e.shard, "CTree.CTreeCheck", "list (op * obs)", "check_all"); err != nil {
+	if err := e.cf.Write(e.dir, e.shard, "CTree.CTreeCheck CTree.CTreeHandle", "list (hop * obs)", "hcheck_all"); err != nil {
 		vh.Die("write: %v", err)
 	}
 	e.shard++
@@ -648,7 +793,7 @@ func (e *emitter) flush() {
 
 func main() {
 	o := vh.ParseFlags()
-	meta := vh.NewMeta("corpus cases; every sequence of 3 (thorough: 4) operations over a fixed alphabet of adds/deletes/queries on paths over {a,b,c,*}, each followed by WalkSorted; seeded random sequences of 3..40 operations over {a,b,c,*,long UTF-8 name} with paths of length 0..4 biased towards stored paths; an 'order' family of sibling-rich trees over names on which bytewise, joined-string, case-insensitive, numeric and length orders disagree, with sorted walks around deletes. distinct = distinct operation sequence; non-trivial = at least one successful Add and at least one Query/Delete/WalkDeleted that selected a leaf")
+	meta := vh.NewMeta("corpus cases; every sequence of 3 (thorough: 4) operations over a fixed alphabet of adds/deletes/queries on paths over {a,b,c,*}, each followed by WalkSorted; seeded random sequences of 3..40 operations over {a,b,c,*,long UTF-8 name} with paths of length 0..4 biased towards stored paths; an 'order' family of sibling-rich trees over names on which bytewise, joined-string, case-insensitive, numeric and length orders disagree, with sorted walks around deletes; a 'deep' family (paths of 5..24 elements over few names incl. the empty name); a 'handle' family (leaf handles taken through GetLeaf or the Query visitor, kept across exact/glob/conditional deletes and re-adds, updated and read while live and after their leaf was deleted). distinct = distinct operation sequence; non-trivial = at least one successful Add and at least one Query/Delete/WalkDeleted that selected a leaf")
 	e := &emitter{dir: o.Out, cf: vh.NewCaseFile(), meta: meta, limit: 1500}
 
 	if o.Replay != "" {
@@ -750,6 +895,14 @@ func main() {
 	}
 	for i := 0; i < ndeep; i++ {
 		e.add("deep", deepCase(r.Fork()))
+	}
+	// leaf handles kept across deletes and re-adds
+	nh := 1500
+	if o.Thorough() {
+		nh = 20000
+	}
+	for i := 0; i < nh; i++ {
+		e.add("handle", handleCase(r.Fork()))
 	}
 	e.flush()
 	meta.Exhaustive = false
